@@ -815,7 +815,23 @@ TENSOR_METHODS.update({
     "numpy": lambda E, t: t,      # ndarray stand-in: same element model (numpy ops used by the AWQ code are index maps / bit ops)
     "astype": lambda E, t, d: to_dtype(E, t, d if not isinstance(d, str) else DType(d)),
     "dequantize": lambda E, t: raise_(E, "NotImplementedError", "dequantize on a plain tensor is aten.dequantize (not supported)"),
+    "new_empty": lambda E, t, *size, dtype=None, device=None, **kw: _new_like(E, t, size, None, dtype, device),
+    "new_zeros": lambda E, t, *size, dtype=None, device=None, **kw: _new_like(E, t, size, 0, dtype, device),
+    "new_ones": lambda E, t, *size, dtype=None, device=None, **kw: _new_like(E, t, size, 1, dtype, device),
 })
+
+
+def _new_like(E, t, size, val, dtype, device):
+    """Tensor.new_empty / new_zeros / new_ones: a fresh tensor with the receiver's dtype and device (new_empty: unknown contents)."""
+    if len(size) == 1 and isinstance(size[0], (list, tuple)):
+        size = size[0]
+    d = dtype.name if dtype is not None else t.dtype
+    dev = device if device is not None else t.device
+    if isinstance(dev, str):
+        dev = Device(dev)
+    if val is None:
+        return new_input(E, E.fresh_name("empty").replace("#", "_"), d, list(size), device=dev)
+    return full(E, list(size), val, d, dev)
 for _n in ["reciprocal", "reshape", "view", "permute", "t", "transpose", "expand", "unsqueeze", "squeeze", "select", "flatten",
            "contiguous", "clone", "detach", "abs", "neg", "round", "clamp", "relu", "mul", "div", "add", "sub", "lt",
            "amax", "amin", "max", "min", "sum", "matmul", "mm", "bmm", "split", "chunk", "copy_", "all", "any", "equal",
